@@ -240,7 +240,7 @@ func (s *Solver) Check(ctx *Ctx, assertions []*Term) Result {
 	}
 	body.WriteString("(check-sat)\n")
 	text := body.String()
-	hasFP := strings.Contains(text, "FloatingPoint")
+	hasFP := strings.Contains(text, "FloatingPoint") || len(text) > 6000
 	var key [32]byte
 	if s.Cache != nil && !s.NeedModel {
 		key = sha256.Sum256([]byte(text))
